@@ -3,6 +3,8 @@ from props import runlib
 
 THEOREMS = ["RootSim.C01.history_stays_sorted", "RootSim.LP.fossil_inv", "RootSim.C05LP.run_exact", "RootSim.C01.lp_state_is_fold", "RootSim.C01.matchStraggler_spec"]
 
+THEOREMS_D = ['RootSim.PrefixUnique.committed_prefix', 'RootSim.PrefixUnique.committed_prefix_seq', 'RootSim.PrefixUnique.hist_below_prefix', 'RootSim.PrefixUnique.prefix_unique']
+
 
 def run(ctx):
     ctx.trusted += ["sequentially consistent execution under the token scheduler",
@@ -11,6 +13,7 @@ def run(ctx):
                     "composition step (E) covered by sampled runs, see C01"]
     ctx.assumptions += ["valid-model contract V1-V5"]
     runlib.lean_part(ctx, "RootSim.Props.C01Sorted", THEOREMS)
+    runlib.lean_part(ctx, "RootSim.Props.PrefixUnique", THEOREMS_D)
     # runs stopped by a termination time (final state speculative) as well as predicate-terminated ones
     agg = runlib.run_matrix(ctx, "committed stream per LP vs Lean sequential per-LP sequence at every fossil collection and at shutdown",
                             36, 900, oracle_keys=("s_below_gvt",), threads=(1, 2, 3, 4), ckpts=(1, 2, 3, 7, 0), tterm=True,
